@@ -726,7 +726,11 @@ pub fn c13(tier: Tier) -> i32 {
                 drop(cdb);
                 Ok(failed)
             });
-            db.reopen();
+            if let Err(p) = catch(|| db.reopen()) {
+                rep.outcome("database_unusable");
+                rep.violation(mk("database_does_not_reopen_after_transaction".into(), format!("script result {r:?}; reopen: {p}")));
+                return;
+            }
             r
         };
         if after {
